@@ -149,6 +149,7 @@ def run(rep, facts, tier):
     from rules import dispatch
     dispatch.run_rule(rep, fx, 'R01.16', 'default', floor=1)
     dispatch.run_kinds(rep, fx, 'R01.17', 'default')
+    dispatch.run_fresh_state(rep, fx, 'R01.18')
     si = fx.find('rtps::rtps_writer_proxy::RtpsWriterProxy::should_ignore_change')
     rep.analysed(si)
     ogs = Origins(si, summaries=True)
